@@ -51,8 +51,7 @@ def sun_case(args):
     if kind >= 10:
         e = rnd.choice([-3.0, 0.0, 5.0, 10.0, 20.0])
         SUN_PARAM[kind] = ('sun_elevation', e, 'rising' if kind == 10 else 'setting')
-    ps.set_location(lat, lon)
-    ps.SUN_CACHE.clear()
+    ps.set_location(lat, lon)       # (the cache is NOT cleared by the harness: that is set_location's own job)
     trig = build_trigger(('sun', kind, None))
     p = trig._producer
     year = rnd.randint(2020, 2030)
@@ -101,6 +100,23 @@ def sun_case(args):
     # a fresh computation gives, not those cached for the old location
     relocate = []
     ps.set_location(lat, lon, 2500.0)
+    for q in queries[:3]:
+        try:
+            a = f'ok {ns_of_instant(p.get_next(instant_of_ns(q)))}'
+        except Exception as e:  # noqa: BLE001
+            a = f'err {type(e).__name__}'
+        saved = dict(ps.SUN_CACHE)
+        ps.SUN_CACHE.clear()
+        try:
+            b = f'ok {ns_of_instant(p.get_next(instant_of_ns(q)))}'
+        except Exception as e:  # noqa: BLE001
+            b = f'err {type(e).__name__}'
+        ps.SUN_CACHE.clear()
+        ps.SUN_CACHE.update(saved)
+        relocate.append((q, a, b))
+    # ... and changes once more, to another place (an observer object may get the address of an earlier one)
+    lat3 = max(-58.0, min(58.0, lat * 0.5 + 7.0)) if abs(lat) < 59 else lat
+    ps.set_location(lat3, ((lon + 180.0 - 11.0) % 360.0) - 180.0)
     for q in queries[:3]:
         try:
             a = f'ok {ns_of_instant(p.get_next(instant_of_ns(q)))}'
@@ -213,7 +229,7 @@ class SunProp:
                                                 rep, 'F9' if f9([q]) else None))
         for q, a, b in c.get('relocate', []):
             if a != b:
-                run.findings.append(Finding('oracle', f'{where} after set_location(same coordinates, elevation 2500 m) get_next({q}) '
+                run.findings.append(Finding('oracle', f'{where} after set_location(...) was called again (another observer elevation, then another place) get_next({q}) '
                                                       f'returns {a} but a fresh computation for the configured location gives {b}', rep))
                 break
         for q, r in zip(c['queries'], c['impl']):
